@@ -228,6 +228,11 @@ func (ph *ptraceHandle) handle(pid int, wstatus unix.WaitStatus) (status runner.
 
 			default:
 				ph.Handler.Debug("ptrace unexpected trap cause: ", trapCause)
+				if trapCause == 0 && ph.execved {
+					// no ptrace event: the program raised SIGTRAP itself (int3, kill); deliver it
+					unix.PtraceCont(pid, int(stopSig))
+					return
+				}
 			}
 			unix.PtraceCont(pid, 0)
 			return
